@@ -92,7 +92,7 @@ Record args := mkArgs {
    dictionary are blanked by [key_of], so they cannot distinguish two requests. *)
 Record params := mkParams {
   p_tr : trange; p_max : option Z; p_p1 : bool; p_sys : bool; p_bytes : bool; p_idx : bool; p_nan : bool;
-  p_src : list N;                                    (* set: sorted, duplicate-free *)
+  p_src : option (list N);                           (* None: no source filter; set: sorted, duplicate-free *)
   p_types : option (list N);                         (* 'message_types' (set) *)
   p_numpy : bool; p_keep : bool; p_align : N; p_atypes : option (list N)
 }.
@@ -130,7 +130,7 @@ Proof. decide equality. apply bool_dec. apply optZ_eq_dec. apply optZ_eq_dec. De
 (* dict equality `self.data[t].params != params` *)
 Definition params_eq_dec : forall a b : params, {a = b} + {a <> b}.
 Proof.
-  decide equality; try apply bool_dec; try apply optlistN_eq_dec; try apply N.eq_dec; try apply listN_eq_dec;
+  decide equality; try apply bool_dec; try apply optlistN_eq_dec; try apply N.eq_dec;
     try apply optZ_eq_dec; try apply trange_eq_dec.
 Defined.
 
@@ -242,11 +242,14 @@ Definition index_select (e : env) (p : params) (types : list N) (sys_requested :
 Definition pre_slice (n : Z) (l : list DLmsg) : list DLmsg :=
   if (0 <=? n)%Z then firstn (Z.to_nat n) l else lastn (Z.to_nat (- n)) l.
 
-(* what read_next() hands to the loop and the loop does not skip: source test (requested ∩ available), payload
+(* what read_next() hands to the loop and the loop does not skip: source test (none when no source_ids were given), payload
    decoded, then `if require_p1_time and get_p1_time() is None: skip  elif require_system_time and
    get_system_time_ns() is None: skip` (either test skips) *)
 Definition read_pass (e : env) (p : params) (m : DLmsg) : bool :=
-  memN (m_src m) (p_src p) && memN (m_src m) (e_avail e) && m_decodes m &&
+  (match p_src p with
+   | None => true                                              (* reader.requested_source_ids = None *)
+   | Some s => memN (m_src m) s && memN (m_src m) (e_avail e)  (* requested ∩ available *)
+   end) && m_decodes m &&
   (if p_p1 p then m_p1_some m else true) && (if p_sys p then m_sys_some m else true).
 
 (* the `while True:` loop.  count = message_count; acc = messages stored by type / in order; dq = newest_messages *)
@@ -297,7 +300,10 @@ Definition reduce_needed (p : params) (needed : list N) : list N :=
   else supported.
 
 Definition norm_args (e : env) (a : args) : params * list N * bool :=
-  let src := match a_src a with None => norm_set (e_avail e) | Some s => norm_set s end in
+  let src := match a_src a with
+             | None => if none_sources_sampled then Some (norm_set (e_avail e)) else None
+             | Some s => Some (norm_set s)
+             end in
   let ignore := a_order a || a_ignore a in
   let numpy := if a_order a then false else a_numpy a in
   let align := if a_order a then align_none else a_align a in
